@@ -77,3 +77,19 @@ Print Assumptions C07_thresholds_stay_positive.
 Print Assumptions C07_wf.
 Print Assumptions C07_valid.
 Print Assumptions C07_valid_verbose.
+
+(* NON-VACUITY (Proofs/NonVacuity.v, worlds W4a-c): C07_valid_verbose applied to the
+   configuration in which the self-check and its fallbacks run (both anchors disabled, verbose,
+   capturing groups): whatever the engine's verdict (first candidate, unminimised candidate,
+   plain alternation), the model returns a string and the parser model accepts it. *)
+From Grex Require Proofs.NonVacuity.
+Theorem C07_nonvacuous : forall sc, exists s r,
+  build NonVacuity.isd NonVacuity.c_W4a NonVacuity.db_W4a sc NonVacuity.ws_W4a = Some s
+  /\ parse NonVacuity.is_ws_std s = Some (mkF false true, r).
+Proof.
+  pose proof NonVacuity.W4a as W. intro sc.
+  exact (C07_valid_verbose NonVacuity.isd NonVacuity.is_ws_std NonVacuity.c_W4a NonVacuity.db_W4a sc NonVacuity.ws_W4a
+           (NonVacuity.w_nonempty _ _ _ _ _ _ _ W) (NonVacuity.w_scalar _ _ _ _ _ _ _ W) NonVacuity.W4a_lower_scalar
+           (NonVacuity.w_oracle _ _ _ _ _ _ _ W) NonVacuity.W4a_printable eq_refl NonVacuity.ws_x_std).
+Qed.
+Print Assumptions C07_nonvacuous.
